@@ -197,7 +197,7 @@ class ThreadRun:
                             from ZODB.POSException import UndoError
                             cands = self.pre_tids[1:] + [d_[0] for _, _, kind, d_ in self.events
                                                          if kind == 'commit-ok' and d_[0] and d_[1]]
-                            if cands:
+                            if cands and self.db.supportsUndo():
                                 target = cands[op[1] % len(cands)]
                                 self.log(th, 'commit-start', {})
                                 self.undo_tid.pop(th, None)
@@ -340,7 +340,7 @@ def snapshot_oracle(run, out, prop):
         for i, (tid, state) in enumerate(rs):
             nxt[(nme, tid)] = (rs[i + 1][0] if i + 1 < len(rs) else INF, state)
     # commits completed (returned) by tick
-    done = sorted((tick, data[0]) for tick, th, kind, data in run.events if kind == 'commit-ok' and data[0])
+    done = sorted((tick, data[0]) for tick, th, kind, data in run.events if kind in ('commit-ok', 'undo-ok') and data[0])
     segs = {}
     cur = {}
     for tick, th, kind, data in run.events:
@@ -476,6 +476,23 @@ def history_oracle(run, out, prop):
             out.fail((prop, 'threads-history', 'counter-lost-increment'),
                      '%s ends at %r, the successful commits incremented it by %r in total' % (nme, final, total))
             return
+
+
+def tolerate_pack_failed_by_undo(s, run, out):
+    """a pack that cannot complete may fail (C08's statement); the one known cause under concurrency: an undo committed
+    while the pack runs points back to a revision the pack has already decided to drop"""
+    from ZODB.FileStorage.fspack import PackError
+    import traceback
+    ev = [k for _, _, k, _ in run.events]
+    for t in s.threads:
+        if not (t.name.startswith('packer') and t.exc is not None and 'undo-ok' in ev):
+            continue
+        # (the same cause shows as the transaction-length assertion of copyOne when the copier writes the
+        # data inline instead of the back-pointer)
+        inner = traceback.extract_tb(t.exc.__traceback__)[-1]
+        if isinstance(t.exc, PackError) or (isinstance(t.exc, AssertionError) and inner.name == 'copyOne'):
+            out.label('threads-pack-failed-because-of-concurrent-undo')
+            t.exc = None
 
 
 def thread_problems(s, out, prop, allowed=()):
